@@ -602,6 +602,7 @@ impl Report {
                             let strat = proptest::collection::vec(proptest::num::u32::ANY, len);
                             let local = std::cell::RefCell::new(SubStats::default());
                             let failed = std::cell::Cell::new(false);
+                            let first_fail: std::cell::RefCell<Option<String>> = std::cell::RefCell::new(None);
                             let res = runner.run(&strat, |choices| {
                                 let r = Self::run_case(env, sub.f, &choices);
                                 record(&choices, &r, &mut local.borrow_mut(), !failed.get());
@@ -610,6 +611,9 @@ impl Report {
                                     Err(CaseErr::Reject(why)) => Err(TestCaseError::reject(why)),
                                     Err(CaseErr::Violation(v)) => {
                                         failed.set(true);
+                                        if first_fail.borrow().is_none() {
+                                            *first_fail.borrow_mut() = Some(format!("{} :: {}", v.signature, v.message.chars().take(300).collect::<String>()));
+                                        }
                                         Err(TestCaseError::fail(v.signature))
                                     }
                                 }
@@ -621,14 +625,18 @@ impl Report {
                                     // re-run the shrunk case to obtain the violation record
                                     match Self::run_case(env, sub.f, &minimal) {
                                         Err(CaseErr::Violation(v)) => local.violations.push((v, minimal)),
-                                        _ => local.violations.push((
-                                            Violation {
-                                                signature: "unstable-failure".into(),
-                                                message: "case failed during search but not when re-run (non-deterministic)".into(),
-                                                case: json!({}),
-                                            },
-                                            minimal,
-                                        )),
+                                        // A failure that the same choices do not reproduce is not a
+                                        // violation of anything: there is no replay to hand over. It is
+                                        // counted, printed, and makes the run inconclusive (exit 2).
+                                        _ => {
+                                            UNSTABLE.fetch_add(1, std::sync::atomic::Ordering::SeqCst);
+                                            println!(
+                                                "[verif] sub={} a case failed during the search but not when re-run with the same choices (non-deterministic, no verdict): {}",
+                                                sub.name,
+                                                first_fail.borrow().clone().unwrap_or_default()
+                                            );
+                                            local.classes.insert("inconclusive:failure-not-reproduced".into(), 1);
+                                        }
                                     }
                                 }
                                 Err(TestError::Abort(why)) => {
@@ -785,6 +793,9 @@ impl Report {
     }
 }
 
+/// failures seen during a search that the same choices did not reproduce (see `Report::run`)
+pub static UNSTABLE: std::sync::atomic::AtomicU32 = std::sync::atomic::AtomicU32::new(0);
+
 fn merge(into: &mut SubStats, from: SubStats, max_samples: usize) {
     into.evaluations += from.evaluations;
     into.rejected += from.rejected;
@@ -818,6 +829,11 @@ pub fn run_main(env: Env, level: &'static str, subs: Vec<Sub>) -> ! {
         report.run(s);
     }
     let n = report.finish();
+    let unstable = UNSTABLE.load(std::sync::atomic::Ordering::SeqCst);
+    if n == 0 && unstable > 0 {
+        println!("[verif] {unstable} failure(s) seen during the search were not reproduced on re-run - inconclusive");
+        std::process::exit(2);
+    }
     std::process::exit(if n > 0 { 1 } else { 0 });
 }
 
